@@ -24,4 +24,14 @@ CHECKS["C16"] = {
     "explanation": "round-trip theorems for the meta codec model; remaining clauses checked on the implementation by the oracle",
 }
 
+CHECKS["C20"] = {
+    "families": ["pfx", "bio"],
+    "trusted_base": ["hand-written models of GenerateLengths/GeneratePrefixes/Decoder.Init/Encoder.Init/RangeEncoder and of prefix.Reader/Writer (64-bit buffer incl. look-ahead bits, both source modes, staging buffer)",
+                     "sort.Sort is not modelled: GenerateLengths' precondition (counts ascending) is taken as given"],
+    "assumptions": ["uint32 counts/symbols are modelled as Nat (no overflow below 2^32 in the generated profiles)"],
+    "level_text": "full for code construction: Lean theorems C20_lengths_total (GenerateLengths returns for every ascending count table and every limit that can hold the alphabet: treeRotate never underflows), C20_lengths_complete (Kraft equality and limit, incl. the length-limited branch that bzip2 hits at 20 bits), C20_lengths_monotone, C20_prefixes_ok_iff / C20_prefixes_sound (GeneratePrefixes accepts exactly the complete vectors; result prefix-free and canonical), C20_decoder_correct (two-level table = code search, incl. link tables), C20_encoder_correct (terminates, maps each symbol to its code), C20_range_correct. Bit I/O round trip (H4) over the 64-bit buffer models: statement written, proof in progress; until it lands that clause is decided by the correspondence/oracle sweep (write-then-read over 4 source kinds, source-shape independence over 9 kinds).",
+    "level_note": "Trusted: Lean kernel (propext, Classical.choice, Quot.sound); models tied to /repo by exact correspondence (results of GenerateLengths/GeneratePrefixes, decode and encode tables as functions, every value/offset/error of bit reader and writer scripts over scripted sources). Defect found and repaired in /repo: prefix.Reader.Read left look-ahead bits behind (D5).",
+    "explanation": "code construction theorems + bit I/O correspondence",
+}
+
 NOT_APPLICABLE = {}
